@@ -38,6 +38,8 @@ type c04case struct {
 	V9          bool    `json:"v9"`          // consensus config without upgrades 10-12
 	EmptyEvery  int     `json:"emptyEvery"`  // an empty block instead of a proposal with probability 1/k (0 = never)
 	Participate float64 `json:"participate"` // ceremony participation (negative: nobody, the validation fails)
+	Seasoned    bool    `json:"seasoned"`    // genesis identities have a validation history (they survive their first ceremonies)
+	Contracts   bool    `json:"contracts"`   // real embedded contracts (TimeLock, Multisig: deploy, fund, transfers incl. to itself, terminate)
 }
 
 // c04coll observes what the real reward code reports to the stats collector (decomposition only; the verdicts use
@@ -126,7 +128,10 @@ func c04run(c *hx.Ctx, cs c04case) error {
 	if cs.V9 {
 		w.Opts.Tweak = c04v9
 	}
-	h, err := chainfx.Bootstrap(w, chainfx.HistoryOpts{Blocks: cs.Blocks, ShortEpochs: true, WithFlips: true, TxPerBlock: 4, Participate: cs.Participate}, r, true)
+	if cs.Seasoned {
+		w.Seasoned()
+	}
+	h, err := chainfx.Bootstrap(w, chainfx.HistoryOpts{Blocks: cs.Blocks, ShortEpochs: true, WithFlips: true, TxPerBlock: 4, Participate: cs.Participate, Contracts: cs.Contracts, OnlineAtOnce: true, Always: map[int]bool{0: true}}, r, true)
 	if err != nil {
 		return err
 	}
@@ -148,6 +153,11 @@ func c04run(c *hx.Ctx, cs c04case) error {
 		chainfx.Advance(h.O.BlockStep)
 		if !n.IsEligibleProposer() {
 			c.Hit("history-ended:proposer-not-eligible")
+			if os.Getenv("C04_DEBUG") != "" {
+				id := n.App.State.GetIdentity(n.Addr)
+				fmt.Fprintf(os.Stderr, "DEBUG end b=%d height=%d epoch=%d period=%d godState=%d validated=%v online=%v onlineSize=%d penaltySec=%d delegatee=%v pending=%d\n", b, n.Chain.Head.Height(), n.App.State.Epoch(), n.App.State.ValidationPeriod(),
+					id.State, n.App.ValidatorsCache.IsValidated(n.Addr), n.App.ValidatorsCache.IsOnlineIdentity(n.Addr), n.App.ValidatorsCache.OnlineSize(), id.PenaltySeconds(), id.Delegatee(), len(n.Pool.GetPendingByAddress(n.Addr)))
+			}
 			break
 		}
 		before := n.Ledger()
@@ -381,7 +391,7 @@ func init() {
 		c.Rep.Rule = "real chain histories (god + 8..11 users, all ordinary tx kinds, conflict bundles, flips, validation ceremonies on a shrunk timeline => several validation-finishing blocks, injected empty blocks, failed validations, consensus v12 and v9); after every block: full iteration of the real ledger before/after, the block's txs alone through processTxs on a check state; distinct = blocks (seed/height)"
 		nh := c.Scale(24, 400)
 		for i := 0; i < nh; i++ {
-			cs := c04case{Seed: c.Seed*1000 + int64(i), Blocks: 240, Users: 8 + i%4, V9: i%4 == 3, Participate: 0.75}
+			cs := c04case{Seed: c.Seed*1000 + int64(i), Blocks: 240, Users: 8 + i%4, V9: i%4 == 3, Participate: 0.75, Contracts: i%3 != 2, Seasoned: i%6 != 5}
 			if i%2 == 1 {
 				cs.EmptyEvery = 6
 			}
